@@ -9,13 +9,83 @@ MODULES = ["Shuttle.Props.C15"]
 RULE = ("seeded histories of 2-12 run_trace calls on ONE TraceInterpreter instance, mixing kernels, argument tuples, "
         "successful traces and the failure kinds (use before set_loc, shape change, failing assert/grid operation, a call that "
         "fails while binding its arguments), the same call repeated directly and after failing calls, one history of several "
-        "hundred calls; "
+        "hundred calls, one of long traces (tens of thousands of interpreted statements), calls made from a Python stack deeper "
+        "than the instance's recursion limit; "
         "each result is compared with a fresh instance's and with the model's history; every returned path is "
         "deep-copied at return time and re-compared with the live object after every later call. "
         "non-trivial = history containing a failing call followed by a successful one; distinct = distinct histories.")
 TRUSTED = ["modelled, not verified: kirin interpreter loop (run() calling initialize()), bloqade-geometry Grid"]
 ASSUMPTIONS = ["calls that fail while binding their arguments are exercised on the implementation only (the Lean models start at "
                "the kernel's first statement)"]
+
+
+BUDGET_SRC = T.PRELUDE + '''
+@tweezer
+def sweep(g: grid.Grid[Any, Any], n: int):
+    action.set_loc(g)
+    action.turn_on(action.ALL, action.ALL)
+    for i in range(n):
+        action.move(grid.shift(g, 0.5 * i, 0.0))
+    action.turn_off(action.ALL, action.ALL)
+
+@tweezer
+def early(g: grid.Grid[Any, Any], n: int):
+    action.move(g)
+'''
+
+
+def budget_stream(ctx, spec):
+    """nothing an instance has is used up by earlier calls: many long traces on one instance (tens of thousands of interpreted
+    statements in total), and calls that fail for reasons outside the kernel (made from a Python stack deeper than the
+    instance's own recursion limit), each followed by calls that must equal a fresh instance's"""
+    import sys
+    from bloqade.geometry.dialects.grid import Grid
+    from bloqade.shuttle.codegen import TraceInterpreter
+    mod = T.load_source(BUDGET_SRC, "c15b")
+    g = Grid.from_positions([0.0, 2.0], [0.0, 1.0])
+
+    def outcome(it, mt, args):
+        try:
+            return "ok " + T.canon_path(it.run_trace(mt, args, {}))
+        except Exception as e:  # noqa: BLE001
+            return "err " + type(e).__name__
+
+    it = TraceInterpreter(spec)
+    n_calls = 40 if ctx.tier == "thorough" else 14
+    for k in range(n_calls):
+        mt, args = (mod.early, (g, 1)) if k % 5 == 4 else (mod.sweep, (g, 300 + 10 * (k % 3)))
+        got, want = outcome(it, mt, args), outcome(TraceInterpreter(spec), mt, args)
+        ctx.count("budget_calls")
+        if got != want:
+            ctx.fail({"source": BUDGET_SRC[len(T.PRELUDE):], "history": f"{k} earlier calls of sweep(g, ~300) / early(g, 1) on one instance",
+                      "call": [mt.sym_name, args[1]]},
+                     f"call {k + 1} of a history of long traces on one instance differs from a fresh instance: reused={got[:120]} fresh={want[:120]}")
+            break
+    # a call made from a stack deeper than the instance's recursion limit fails before the kernel starts
+    limit0 = sys.getrecursionlimit()
+    try:
+        it2 = TraceInterpreter(spec, max_python_recursion_depth=300)
+
+        def deep(d):
+            return deep(d - 1) if d > 0 else outcome(it2, mod.sweep, (g, 2))
+        for rep in range(2):
+            sys.setrecursionlimit(max(limit0, 3000))
+            first = deep(450)
+            sys.setrecursionlimit(limit0)
+            ctx.count("deep_stack_calls")
+            ctx.count("deep_stack_call_" + first.split(" ")[0])
+            got = outcome(it2, mod.sweep, (g, 2))
+            sys.setrecursionlimit(limit0)
+            want = outcome(TraceInterpreter(spec, max_python_recursion_depth=300), mod.sweep, (g, 2))
+            sys.setrecursionlimit(limit0)
+            if got != want:
+                ctx.fail({"source": BUDGET_SRC[len(T.PRELUDE):],
+                          "history": "TraceInterpreter(spec, max_python_recursion_depth=300): sweep(g, 2) called from 450 nested frames "
+                                     f"({first[:60]}), then sweep(g, 2) called normally"},
+                         f"after a call made from a deep stack the instance differs from a fresh one: reused={got[:120]} fresh={want[:120]}")
+                break
+    finally:
+        sys.setrecursionlimit(limit0)
 
 
 def run(ctx):
@@ -95,6 +165,8 @@ def run(ctx):
         hist_reqs.append("(C02 (hist " + " ".join(c.req for c in calls) + "))")
         hist_impl.append("(" + " ".join(shown) + ")")
         hist_meta.append((case, [c.kernel_error for c in calls]))
+    if ctx.replay_case is None:
+        budget_stream(ctx, spec)
     model = ctx.driver(hist_reqs)
     ctx.traces_validated = len(hist_reqs)
     for (case, kerrs), i, m in zip(hist_meta, hist_impl, model):
